@@ -78,6 +78,21 @@ extern "C" __attribute__((noinline)) void h_invrev() {
     checkStructure(t, 600);
     return;
   }
+  // a peer re-sends the header of a block that is already known (valid or invalidated): nothing changes, in particular an invalidated
+  // block never becomes the best tip again however much work it has
+  if (verif_bool()) {
+    uint8_t Rs = (uint8_t)verif_range(2, NBLK);
+    auto* tipBefore = t.getBestChain().tip();
+    Snap s0, s1; snap(t, s0);
+    ValidationState rst;
+    bool acc = t.acceptBlockHeader(mkBtc(Rs, parent[Rs], 1000 + 10 * Rs), rst);
+    (void)acc;
+    checkStructure(t, 350);
+    snap(t, s1);
+    verif_check(t.getBestChain().tip() == tipBefore, 25);
+    for (int id = 1; id <= NBLK; id++) verif_check(s1.failed[id] == s0.failed[id] && s1.tip[id] == s0.tip[id], 26);
+    if (idx(t, Rs)->isFailed()) verif_cover(7);
+  }
   if (wasOnBest) verif_cover(2);
   if (hadReason) verif_cover(3);
   t.revalidateSubtree(*bi, r);
